@@ -141,6 +141,22 @@ Proof.
     split; intros H; try tauto; try lia; try reflexivity.
 Qed.
 
+(** operator*(Vector), Angle (whose only shape test is the one of Dot), operator== and the outer product *)
+Lemma vec_mul_spec d1 d2 : decides (guard_vec_mul d1 d2) (d1 = d2).
+Proof. exact (vec_binary_spec d1 d2). Qed.
+Lemma angle_spec d1 d2 : decides (guard_angle d1 d2) (d1 = d2).
+Proof.
+  unfold guard_angle, guard_vec_mul. split; intros H.
+  - subst d2. rewrite (proj1 (vec_binary_spec d1 d1) eq_refl). reflexivity.
+  - rewrite (proj2 (vec_binary_spec d1 d2) H). reflexivity.
+Qed.
+Lemma vec_eq_returns d1 d2 : guard_vec_eq d1 d2 = Ok tt.
+Proof.
+  unfold guard_vec_eq. destruct (Z.eqb_spec d1 d2) as [->|Hn]; cbn [negb]; [|reflexivity]. loops.
+Qed.
+Lemma outer_returns d1 d2 : guard_outer d1 d2 = Ok tt.
+Proof. unfold guard_outer. loops. Qed.
+
 (** ** Matrix(vector<vector<double>>): the shape must be rectangular (an empty list is the 0x0 matrix) *)
 Lemma mat_ctor_spec lens :
   decides (guard_mat_ctor lens) (forall i, 0 <= i < zlen lens -> nth (Z.to_nat i) lens 0 = nth 0 lens 0).
